@@ -251,3 +251,26 @@ Definition start_decision (a : str) (key : str) : start_res :=
                      else StartListen host port
   | r => StartBadAddress r
   end.
+
+(* ---------- Terminal.dumpStatus (src/terminal.go): the two copy loops ---------- *)
+(* selected := make([]StatusItem, util.Max(0, util.Min(params.limit, len(selectedItems)-params.offset)))
+   for i := range selected { selected[i] = t.dumpItem(selectedItems[i+params.offset].item) }
+   and the same over t.merger.Get(i + params.offset).  Every access is checked: an index outside the list
+   (a negative one included) is the Go panic that would take the whole process down, since the server
+   goroutine has no recover. *)
+Definition window_count (n limit offset : Z) : Z := Z.max 0 (Z.min limit (n - offset)).
+
+Definition get_z {A} (l : list A) (i : Z) : res A :=
+  if i <? 0 then Err OutOfRange else get l (Z.to_nat i).
+
+Fixpoint dump_loop {A} (items : list A) (offset : Z) (i cnt : nat) : res (list A) :=
+  match cnt with
+  | O => Ok []
+  | S c =>
+      do x <- get_z items (Z.of_nat i + offset);
+      do r <- dump_loop items offset (S i) c;
+      Ok (x :: r)
+  end.
+
+Definition dump_items {A} (items : list A) (limit offset : Z) : res (list A) :=
+  dump_loop items offset 0 (Z.to_nat (window_count (Z.of_nat (length items)) limit offset)).
